@@ -130,7 +130,7 @@ func init() {
 	register(&check{
 		id:    "C14",
 		level: "model_checking",
-		rule: "every word of ≤ N segments (N=6 quick, 7 thorough) over the 8 segment kinds × IFS ∈ {unset, default, ' ,', ',', ':', '', 'é,'} × realisations {literal parts, $var parts, single-quoted}; " +
+		rule: "every word of ≤ N segments (N=6 quick, 7 thorough) over the 8 segment kinds × IFS ∈ {unset, default, ' ,', ',', ':', '', 'é,', '|', ' x', '_~<nl>', '\\@'} × realisations {literal parts, $var parts, single-quoted}; " +
 			"plus histories on ONE environment: every sequence of ≤ 3 (thorough 4) IFS settings with 5 probe words (literal and through a variable) expanded after each change, and every pair (IFS₁, probe) → (IFS₂, word ≤ 3 characters over {a space , : é tab}); " +
 			"non-trivial = the rule yields ≥ 2 fields (the word really is cut), and every history",
 		assume: []string{"reference splitter written from the property statement (c14Ref)", "NoGlob set so that pathname expansion does not interfere; words are AST values (white space cannot be written literally)"},
@@ -163,7 +163,7 @@ func c14Run(w *W) {
 	ifsList := []struct {
 		v   string
 		set bool
-	}{{"", false}, {" \t\n", true}, {" ,", true}, {",", true}, {":", true}, {"", true}, {"é,", true}}
+	}{{"", false}, {" \t\n", true}, {" ,", true}, {",", true}, {":", true}, {"", true}, {"é,", true}, {"|", true}, {" x", true}, {"_~\n", true}, {"\\@", true}}
 	for _, ifs := range ifsList {
 		eff := ifs.v
 		if !ifs.set {
@@ -298,7 +298,7 @@ func c14Histories(w *W, ifsList []struct {
 	v   string
 	set bool
 }, depth int) {
-	probes := []string{"a b,c:d\u00e9e\tf\ng", " a ", ",a,", "::", "a\u00e9,b c"}
+	probes := []string{"a b,c:d\u00e9e\tf\ng", " a ", ",a,", "::", "a\u00e9,b c", "a|bxc_d~e@f\\g"}
 	var small []string
 	genRunes([]rune("a ,:\u00e9\t"), 3, func(r []rune) {
 		if len(r) > 0 {
